@@ -672,7 +672,7 @@ def check_trigger(ctx: Ctx, prog: sf.SqlProgram, r: sf.Routine, kind: str) -> No
                 return t.kind == 'col' and t.parts[-1].lower() == 'usage' and (len(t.parts) == 1 or t.parts[-2].lower() == tbl)
 
             def is_values_usage(t: N) -> bool:
-                return t.kind == 'func' and t.name == 'VALUES' and len(t.args) == 1 and t.args[0].kind == 'col' and t.args[0].parts[-1].lower() == 'usage'
+                return t.kind == 'values_fn' and str(t.col).lower().strip('`') == 'usage'
 
             def same_amount(t: N) -> bool:
                 return is_values_usage(t) or _norm_product(t) == use_raw or _norm_product(sr.inline_expr(t, env)) == use_inl
@@ -967,8 +967,8 @@ def r4(ctx: Ctx) -> None:
         ctx.need(c.kind == 'col', 'add_attempt_resources: ON DUPLICATE KEY UPDATE target is not a column')
         if _is_self_assign(c.parts[-1].lower(), v):
             continue
-        leafy = v.kind in ('col', 'lit', 'param') or (v.kind == 'func' and v.name == 'VALUES') or \
-            (v.kind == 'bin' and v.op in ('+', '-', '*') and all(x.kind in ('col', 'lit', 'param') or (x.kind == 'func' and x.name == 'VALUES') for x in (v.left, v.right)))
+        leafy = v.kind in ('col', 'lit', 'param', 'values_fn') or \
+            (v.kind == 'bin' and v.op in ('+', '-', '*') and all(x.kind in ('col', 'lit', 'param', 'values_fn') for x in (v.left, v.right)))
         ctx.need(leafy, f'add_attempt_resources: ON DUPLICATE KEY UPDATE {text(c)} = `{text(v)}` is not analysed')
         changed.append(f'{text(c)} = {text(v)}')
     ok = bool(st.on_dup) and not changed and not getattr(st, 'replace', False)
@@ -1151,33 +1151,120 @@ def r5(ctx: Ctx, prog: sf.SqlProgram) -> None:
             raise
         except AnalysisError as e:
             deferred.append(e)
-    # closed world
-    allowed = {'sql:attempts_after_update', 'sql:attempt_resources_after_insert'} | {f'py:{m.rel}::{q}' for q in compactors}
-    from rules.c01 import writers_scan
-    tables = {t: set(allowed) for t in TABLES}
-    # each compactor only its own table; triggers all four
+    # closed world: the two triggers write all four tables, each compactor (named by its outermost function: the nested transaction body is
+    # private) only its own
+    trig = {'sql:attempts_after_update', 'sql:attempt_resources_after_insert'}
+    tables = {t: set(trig) for t in TABLES}
     for q, t in compactors.items():
-        for t2 in TABLES:
-            if t2 != t:
-                tables[t2].discard(f'py:{m.rel}::{q}')
-    for t in ('aggregated_job_group_resources_v3', 'aggregated_job_resources_v3'):
-        tables[t] = {'sql:attempts_after_update', 'sql:attempt_resources_after_insert'}
+        tables[t].add(f'py:{m.rel}::{q.split(".")[0]}')
     dirs = ['batch/batch'] if ctx.tier == 'quick' else ['batch', 'gear', 'auth', 'ci', 'monitoring']
-    # the function that rewrites the table is found by what it does; the closed-world scan knows it under its source name
-    renamed: Dict[str, str] = {}
-    for q, t in compactors.items():
-        try:
-            fn, _ = _find_compactor(m, q.split('.')[0], t)
-            real = m.qualname(fn)
-            if real != q:
-                renamed[f'py:{m.rel}::{q}'] = f'py:{m.rel}::{real}'
-        except AnalysisError:
-            pass
-    if renamed:
-        tables = {t: {renamed.get(w, w) for w in ws} for t, ws in tables.items()}
-    writers_scan(ctx, prog, dirs, tables, 'R5')
+    aggregate_writers_scan(ctx, prog, dirs, tables, 'R5')
     if deferred:
         raise deferred[0]
+
+
+_WRITE_VERB = re.compile(r'\b(INSERT|UPDATE|DELETE|REPLACE|TRUNCATE)\b', re.I)
+
+
+def _outermost_fn(m: pf.Module, node: ast.AST) -> Optional[pf.FuncDef]:
+    par = m.parents()
+    cur = par.get(node)
+    top = None
+    while cur is not None:
+        if isinstance(cur, (ast.FunctionDef, ast.AsyncFunctionDef)):
+            top = cur
+        cur = par.get(cur)
+    return top
+
+
+def _entry_functions(m: pf.Module, fn: pf.FuncDef, allowed_names: set, depth: int = 0, seen: Optional[set] = None) -> List[str]:
+    """The functions through which the module-level function / method `fn` is entered: fn itself when it is one of the allowed writers, when
+    nothing in the module calls it, or when it is referenced other than by a call; otherwise the entry functions of its callers (a statement
+    extracted into a helper does not make the helper a new writer; a new caller of the helper is one)."""
+    q = m.qualname(fn)
+    seen = seen if seen is not None else set()
+    if q in allowed_names or id(fn) in seen or depth > 4:
+        return [q]
+    seen.add(id(fn))
+    par = m.parents()
+    callers: List[pf.FuncDef] = []
+    for n in ast.walk(m.tree):
+        name = n.id if isinstance(n, ast.Name) else (n.attr if isinstance(n, ast.Attribute) else None)
+        if name != fn.name or not isinstance(getattr(n, 'ctx', None), ast.Load):
+            continue
+        p_ = par.get(n)
+        if not (isinstance(p_, ast.Call) and p_.func is n):
+            return [q]          # passed around as a value: anybody may call it
+        top = _outermost_fn(m, n)
+        if top is None:
+            return [q]
+        if top is not fn and top not in callers:
+            callers.append(top)
+    if not callers:
+        return [q]
+    out: List[str] = []
+    for g in callers:
+        for x in _entry_functions(m, g, allowed_names, depth + 1, seen):
+            if x not in out:
+                out.append(x)
+    return out
+
+
+def aggregate_writers_scan(ctx: Ctx, prog: sf.SqlProgram, dirs: List[str], tables: Dict[str, set], rule: str) -> None:
+    """Closed-world scan: every statement (stored routines; embedded SQL of the given packages, also when the text sits in a module-level
+    constant) that writes one of `tables` belongs to one of the allowed writers of that table."""
+    found: Dict[str, Dict[str, Tuple[str, int]]] = {t: {} for t in tables}
+    for name, r in prog.routines.items():
+        for st in sf.all_statements(r.ast.body):
+            for t, _verb in sf.written_tables(st):
+                if t.lower() in tables:
+                    found[t.lower()].setdefault('sql:' + name, (r.file, r.line_of(st)))
+    n_mod = 0
+    for rel in pf.walk_py(dirs):
+        m = pf.load(rel)
+        n_mod += 1
+        if not any(t in m.src for t in tables):
+            continue
+        allowed_names = {w.split('::', 1)[1] for ws in tables.values() for w in ws if w.startswith(f'py:{rel}::')}
+        covered: set = set()
+        for e in sf.embedded_in(m):
+            a0 = e.call.args[0]
+            for n in ast.walk(a0):
+                covered.add(id(n))
+            raw = e.sql_text
+            if isinstance(a0, ast.Name):
+                d = pf.single_def(e.fn, a0.id) if e.fn is not None else None
+                if d is None:
+                    try:
+                        d = m.global_assign(a0.id)
+                    except Exception:
+                        d = None
+                if d is not None:
+                    for n in ast.walk(d):
+                        covered.add(id(n))
+                    if raw is None:
+                        raw = pf.const_str(d) if isinstance(d, ast.expr) else None
+            if raw is None or not any(t in raw for t in tables):
+                continue
+            sts = _emb_stmts(m, e)
+            for st in sts:
+                for t, _verb in sf.written_tables(st):
+                    if t.lower() in tables:
+                        top = _outermost_fn(m, e.call)
+                        for q in (_entry_functions(m, top, allowed_names) if top is not None else ['<module>']):
+                            found[t.lower()].setdefault(f'py:{rel}::{q}', (m.path, e.lineno))
+        for n in ast.walk(m.tree):
+            if isinstance(n, ast.Constant) and isinstance(n.value, str) and id(n) not in covered and _WRITE_VERB.search(n.value) and any(t in n.value for t in tables):
+                raise AnalysisError(f'{rel}:{n.lineno}: a string naming an aggregate table together with a write verb is not an analysed execute() argument (opaque SQL)')
+    ctx.unit('python_modules_scanned', n_mod)
+    for t, allowed in tables.items():
+        for w in sorted(found[t]):
+            file, line = found[t][w]
+            ctx.check(w in allowed, rule, f'{t}::writer {w}', f'{w} writes {t} but is not in the closed set of aggregate maintainers {sorted(allowed)}: usage enters or leaves the table '
+                      'outside the two billing triggers and the sum-preserving compaction', file, line)
+        missing = allowed - set(found[t])
+        if missing:
+            raise AnalysisError(f'expected writer {sorted(missing)[0]} of {t} not found (anchor vanished)')
 
 
 def _r5_compactor(ctx: Ctx, m: pf.Module, qual: str, tbl: str) -> None:
